@@ -11,6 +11,7 @@ JudgeRoundTrip(e) ==
     /\ e.out.k = "ok"
     /\ e.out.same                                         \* 2nd and 3rd serialisation byte-identical
     /\ e.out.detect                                       \* the serialised form is recognised as a source map
+    /\ e.out.reader_same                                  \* decoding it from a reader gives the same map as from a slice
     /\ (Has(e.args.m) => BuiltMatches(Get(e.args.m), e.args.p1))
     /\ (Has(e.args.doc) => DocStatus(Get(e.args.doc)) = "ok" /\ MatchDoc(Get(e.args.doc), e.args.p1))
     /\ RoundTripEq(e.args.p1, e.out.p2)
